@@ -90,6 +90,28 @@ def main():
                                                       'segments': [len(s) for s in segs]}, 'detail': problems})
                         if len(samples) < 3 and n > 8:
                             samples.append({'m': m, 'M': M, 'n': n, 'segments': [len(s) for s in segs], 'chunks': [len(c) for c in out]})
+    # LARGE pieces at round sizes (powers of two, multiples of 1 MiB / 4 MiB, the repository's 16 MiB read block): any slicing, batching
+    # or staging threshold inside the adapter lies on such a size
+    big = random.Random(seed + 77).randbytes(2 ** 24 + 5)
+    for (m, M) in ((64, 256), (4096, 65536)):
+        for P in (2 ** 16, 2 ** 20, 2 ** 22, 2 ** 22 - 4, 2 ** 23, 3 * 2 ** 22, 2 ** 24, 10 ** 6, 1_024_000):
+            data = big[:P + 5]
+            ref = None
+            for segs in ([data[:P], data[P:]], [data[:P // 2], data[P // 2:P], data[P:]], [data]):
+                cases += 1
+                distinct.add((m, M, len(data), None, tuple(map(len, segs))))
+                out, problems = check(m, M, None, data, segs)
+                lens, pos = [], 0
+                for c in out:
+                    if len(data) - pos >= 2 * M:
+                        lens.append(len(c))
+                    pos += len(c)
+                if ref is None:
+                    ref = lens
+                elif ref[:min(len(ref), len(lens))] != lens[:min(len(ref), len(lens))]:
+                    problems.append('chunks outside the tail zone depend on the segmentation')
+                if problems:
+                    failures.append({'id': f'big_m{m}M{M}P{P}', 'class': None, 'case': {'m': m, 'M': M, 'n': len(data), 'segments': [len(x) for x in segs]}, 'detail': problems})
     seen = set()
     uniq = []
     for f in failures:
